@@ -435,19 +435,22 @@ func trySkipTrailer(r network.Reader, n int) error {
 	return nil
 }
 
+// skipTrailer finds the end of the trailer section the way parseTrailer reads it:
+// a line ends at LF, with or without a CR in front of it, and an empty line ends
+// the section.
 func skipTrailer(buf []byte) (int, error) {
 	skip := 0
-	strCRLFLen := len(bytestr.StrCRLF)
 	for {
-		index := bytes.Index(buf, bytestr.StrCRLF)
+		index := bytes.IndexByte(buf, '\n')
 		if index == -1 {
 			return 0, errs.ErrNeedMore
 		}
 
-		buf = buf[index+strCRLFLen:]
-		skip += index + strCRLFLen
+		line := buf[:index]
+		buf = buf[index+1:]
+		skip += index + 1
 
-		if index == 0 {
+		if len(line) == 0 || (len(line) == 1 && line[0] == '\r') {
 			return skip, nil
 		}
 	}
